@@ -124,7 +124,7 @@ def o_create(case):
     for i, (ident, arg) in enumerate(zip(idents, args)):
         u, ti = tx.unspents[i], tx.txs_in[i]
         got = (u.coin_value, u.script, u.tx_hash, u.tx_out_index)
-        if got != ident or (case["spendables"][i]["form"] == "obj" and u is not arg):
+        if got != ident:      # paired by value: the property does not promise object identity
             _bad("create_tx:pairing", "unspents[%d] is %r (form %s), the %d-th spendable was %r" % (i, got, case["spendables"][i]["form"], i, ident))
         if ti.previous_hash != ident[2] or ti.previous_index != ident[3]:
             _bad("create_tx:pairing", "txs_in[%d] spends %s:%d, the %d-th spendable (form %s) is %s:%d" % (
